@@ -11,10 +11,9 @@ Local predicates (one position: the data type the schema gives the position, the
   `u64AboveI64`        DOCUMENTED: a `u64` above `i64::MAX` at a position coerced to Int64 under `coerce_numbers`
   `dataLessNewtype`    KNOWN FINDING C06-data-less-newtype-variant-as-string: a newtype variant at a position traced as a
                        dictionary of strings (`enums_without_data_as_strings`, payload only ever null)
-(The former exclusion `unitStructAtValue` — finding `C06-unit-struct-into-value`: a unit struct at a position that is not
-of type Null; the tracer treats `serialize_unit_struct` like `serialize_unit`, only `NullBuilder` accepted it — is gone
-with repo fix ae2fc46: every builder now treats a unit struct as it treats `()`, so a unit struct counts as a null,
-also in `nullAtEnum`.)
+(No exclusion for unit structs — finding `C06-unit-struct-into-value`, a unit struct at a position that is not of type
+Null: the tracer treats `serialize_unit_struct` like `serialize_unit`, and with repo fix ae2fc46 every builder treats a unit
+struct as it treats `()`, so a unit struct counts as a null, also in `nullAtEnum`.)
 `hits p dt x` walks the sample along the documented mapping (`Spec.interpDT`: records by name, tuples by position, maps by
 key, variants by index; a field / position the sample lacks counts as a null there) and says whether `p` holds at some
 position.  `sampleOK` is the well-formedness of a sample as a serde value (integers within their width, chars are
